@@ -57,8 +57,8 @@ claims.update({
 })
 claims.update({
  'C13': ('other', 'inverse-map and lock/dirty/notify rules on all paths, per-event path table of the watch loop, per-key decision table of the snapshot diff and dispatch-order rule, resolver publication flow',
-   'Container key->value and value->keys maps stay inverse (a key is re-pointed only after its previous image was dropped or is known absent/equal); every mutation holds the lock and marks the view dirty; Values() rebuilds from the value map; OnAdd/OnDelete apply the event then notify once; each PUT/DELETE watch event updates the watcher map under the lock and is forwarded with its own key/value, outside the lock; the reload diff classifies every key exactly, stores the new snapshot, and a changed key\'s removal cannot erase its new value; resolver publishes subset(Values(), 32) and is registered as listener.',
-   'Not decided: convergence over arbitrary event histories, etcd semantics, kube EventHandler (not covered by a rule yet). Two genuine defects found by these rules were repaired (580f3ce, e1532fa).',
+   'Container key->value and value->keys maps stay inverse (a key is re-pointed only after its previous image was dropped or is known absent/equal); every mutation holds the lock and marks the view dirty; Values() rebuilds from the value map; OnAdd/OnDelete apply the event then notify once; each PUT/DELETE watch event updates the watcher map under the lock and is forwarded with its own key/value, outside the lock; the reload diff classifies every key exactly, stores the new snapshot, and a changed key\'s removal cannot erase its new value; resolver publishes subset(Values(), 32) and is registered as listener; stream errors wrap their cause so a compaction triggers a reload; listeners are called from a private copy; the kube endpoints handler replaces its set by exactly the new object\'s addresses and notifies iff it changed.',
+   'Not decided: convergence over arbitrary event histories, etcd / Kubernetes informer semantics. Two genuine defects found by these rules were repaired (580f3ce, e1532fa).',
    'DESIGN.md 3.C13'),
 })
 claims.update({
